@@ -127,4 +127,22 @@ theorem keyLe_eq_leB {α : Type} [LinearOrder α] (a b : WithBot α) :
     | bot => show false = decide ((a : WithBot α) ≤ ⊥); simp
     | coe b => show decide (a ≤ b) = decide ((a : WithBot α) ≤ (b : WithBot α)); simp
 
+/-- as functions -/
+theorem keyLe_fun_eq_leB {α : Type} [LinearOrder α] :
+    (keyLe : Option α → Option α → Bool) = @SD.leB (WithBot α) _ := by
+  funext a b; exact keyLe_eq_leB a b
+
+/-- the two notions of a sorted queue coincide -/
+theorem qsorted_iff {α : Type} [LinearOrder α] (q : List (Option α × Nat)) :
+    QSorted q ↔ SD.QSorted (κ := WithBot α) q := by
+  unfold QSorted SD.QSorted
+  refine ⟨fun h => h.imp ?_, fun h => h.imp ?_⟩
+  · intro a b hab
+    have := keyLe_eq_leB (α := α) b.1 a.1
+    rw [hab] at this
+    simpa using this.symm
+  · intro a b hab
+    have := keyLe_eq_leB (α := α) b.1 a.1
+    exact this.trans (by simpa using hab)
+
 end AGP
